@@ -54,8 +54,12 @@ def build(s: DScn):
         states.append(State(st.name if st.name else None, initial=st.initial, final=st.final,
                             enter=inline(st.enter), exit=inline(st.exit), **kw))
     ns = {}
-    for st, obj in zip(s.states, states):
-        ns[st.id] = obj
+    if getattr(s, "states_dict", False):
+        from statemachine.states import States
+        ns["states_"] = States({st.id: obj for st, obj in zip(s.states, states)})
+    else:
+        for st, obj in zip(s.states, states):
+            ns[st.id] = obj
     by_attr = {}
     any_done = set()
     for t in s.trans:
